@@ -244,10 +244,16 @@ func ctxFor(part string) vctx.Context {
 // newDefaultLimiter builds a DefaultLimiter over lim and strat with a 10-sample window,
 // 1 ns RTT threshold and the given window times.
 func newDefaultLimiter(lim core.Limit, strat core.Strategy, minWin, maxWin int64, reg core.MetricRegistry) *limiter.DefaultLimiter {
+	return newDefaultLimiterRTT(lim, strat, minWin, maxWin, 1, reg)
+}
+
+// newDefaultLimiterRTT takes the minimum RTT threshold as well: with a threshold above every RTT of the
+// scenario each OnSuccess takes the "too fast to be a sample" path.
+func newDefaultLimiterRTT(lim core.Limit, strat core.Strategy, minWin, maxWin, minRTT int64, reg core.MetricRegistry) *limiter.DefaultLimiter {
 	if reg == nil {
 		reg = core.EmptyMetricRegistryInstance
 	}
-	l, err := limiter.NewDefaultLimiter(lim, minWin, maxWin, 1, 10, strat, limit.NoopLimitLogger{}, reg)
+	l, err := limiter.NewDefaultLimiter(lim, minWin, maxWin, minRTT, 10, strat, limit.NoopLimitLogger{}, reg)
 	if err != nil {
 		panic(err)
 	}
